@@ -46,6 +46,13 @@ def respSpecTerms [DecidableEq α] (num den : Terms α) (w : α) : Resp α :=
     | none => .nan
     | some v => .val v
 
+/-- a dense coefficient list seen as the `{delay: coefficient}` dict with every entry (zeros
+    included), delays `i, i+1, …` — `ZFilter(b, a)` and `ZFilter(dict(enumerate(b)), dict(enumerate(a)))`
+    are the same filter -/
+def denseTerms (i : Nat) : List α → Terms α
+  | [] => []
+  | c :: cs => ((i : Int), c) :: denseTerms (i + 1) cs
+
 def prodResp : List (Resp α) → Resp α
   | [] => .typeError
   | [r] => r
